@@ -507,7 +507,7 @@ theorem stage1_split (h1 : stage1Errs R plug = []) : (linkAll R).2 = [] ∧ stag
   unfold stage1Errs at h1 ⊢
   simp only [List.append_eq_nil_iff] at h1 ⊢
   obtain ⟨⟨l1, l2⟩, l3⟩ := h1
-  exact ⟨l1, ⟨(IncludeLink.linkAll_split s R R' h.text h.regs l1).1, h.plugOK.identity l2⟩, h.plugOK.typedefs l3⟩
+  exact ⟨l1, ⟨(IncludeLinkN.linkAll_splitN s R R' h.text h.regs l1).1, h.plugOK.identity l2⟩, h.plugOK.typedefs l3⟩
 
 include h in
 /-- **`processAll` on the split set**, when no loaded module has augment or deviation statements. -/
